@@ -14,6 +14,7 @@ const (
 	fEvalPeer  = "pkg/netpol/eval/peer.go"
 	fIngress   = "pkg/netpol/connlist/internal/ingressanalyzer/ingress_analyzer.go"
 	fConnlist  = "pkg/netpol/connlist/connlist.go"
+	fPeer      = "pkg/netpol/eval/internal/k8s/peer.go"
 	fConnSet   = "pkg/netpol/internal/common/connectionset.go"
 	fPortSet   = "pkg/netpol/internal/common/portset.go"
 	fDiff      = "pkg/netpol/diff/diff.go"
